@@ -1,5 +1,6 @@
 // C17: fixed workspaces of the correspondence leg c17.filter (generated once from scratch files; edit by hand).
-// w1 triggers diagnostic types 1-23, 26, 28, 29; w2 is shaped after the examples of docs/manual/config.md; w3 adds type 24.
+// w1 triggers diagnostic types 1-23, 26, 28, 29; w2 is shaped after the examples of docs/manual/config.md; w3 adds type 24;
+// w4 (leg c17.live only) has a file without any diagnostic.
 // No global is defined in two files (C09 order dependence) and no file name is a substring / regexp match of
 // another one (the raw oracle ignores files by their literal names). w2 has the folders c+v (a valid regexp that does not
 // match its own text) and c++ (not a regexp at all), so that the literal strings.Contains half of every rule matters.
@@ -205,6 +206,27 @@ local unused3 = callsRets()
 `,
 		"top.lua": `local t3 = undefined3
 goto nolabel3
+`,
+	},
+	// w4: for the unsaved-buffer leg c17.live: clean.lua has NO diagnostic on disk (with every check enabled), dir/warn.lua
+	// and top.lua have warnings only, dir/broken.lua has a syntax error on disk. Not used by c17.filter / c17.sites (the
+	// latter needs a diagnostic in every file).
+	"w4": {
+		"clean.lua": `local function h()
+	return 1
+end
+return h()
+`,
+		"dir/broken.lua": `local q4 = 1
+if q4
+end
+`,
+		"dir/warn.lua": `local w4unused = 1
+w4g = w4undef
+goto w4label
+`,
+		"top.lua": `local t4 = { k = 1, k = 2 }
+local u4 = t4.k == 1.5
 `,
 	},
 }
